@@ -16,7 +16,7 @@ impl Prop for C01 {
         "C01"
     }
     fn cases(&self, ctx: &Ctx) -> u64 {
-        ctx.tier.pick(1500, 60_000)
+        ctx.tier.pick(10_000, 150_000)
     }
     fn rule(&self) -> &'static str {
         "inputs from all generators (seeds, grammar programs with decorations, mutated/spliced/truncated programs, token soup, byte soup), each under a randomly sampled full configuration; oracle: blank-stripped character sequences equal ignoring ASCII case, and every case difference lies (by the reference scanner on the input) inside a keyword-capable word or a directive name. Non-trivial: input has >= 2 reference tokens and output != input; distinct by hash of (input, configuration)."
